@@ -272,8 +272,8 @@ init_run(Params *p)
 	nng_init_params ip;
 	memset(&ip, 0, sizeof(ip));
 	ip.num_task_threads = ip.max_task_threads = 2;
-	ip.num_expire_threads = ip.max_expire_threads = 1;
-	ip.num_poller_threads = ip.max_poller_threads = 1;
+	ip.num_expire_threads = ip.max_expire_threads = (int16_t) p->i("expires", 1);
+	ip.num_poller_threads = ip.max_poller_threads = (int16_t) p->i("pollers_n", 1);
 	ip.num_resolver_threads = 1;
 	ip.malloc_fn = sim_malloc;
 	ip.calloc_fn = sim_calloc;
